@@ -145,6 +145,8 @@ pub trait Elem: Sized + 'static {
     /// has a ledger identity
     const TRACKED: bool;
     const ZST: bool;
+    /// every minted value has its own id (also without a ledger)
+    const UNIQUE: bool = true;
     const NAME: &'static str;
     fn mint(key: u8) -> Self;
     fn id(&self) -> u64;
@@ -290,6 +292,7 @@ pub struct Zs;
 impl Elem for Zs {
     const TRACKED: bool = false;
     const ZST: bool = true;
+    const UNIQUE: bool = false;
     const NAME: &'static str = "Zs";
     fn mint(_key: u8) -> Self {
         with(|l| l.zs_created += 1);
